@@ -5,3 +5,6 @@ import TrionModel.Props.C10Parse
 import TrionModel.Props.C12Parse
 import TrionModel.Props.C16
 import TrionModel.Props.C18
+import TrionModel.Props.C10
+import TrionModel.Props.C11
+import TrionModel.Props.C12
